@@ -238,6 +238,33 @@ class Prop:
                 except BaseException:      # noqa: BLE001 - exceptions in __del__ are printed and ignored
                     pass
 
+        class EvilHook:
+            """A callable (hook, getter, setter, validator) that only the trait definition
+            refers to; when the trait lets go of it, its finalizer uses the attribute the
+            trait governs - while the C code is in the middle of replacing the hook."""
+
+            def __init__(self, owner, name, n):
+                self.owner, self.name, self.n = owner, name, n
+
+            def __call__(self, *a):
+                env.point("h:any", "evilhook")
+                return a[-1] if a else None
+
+            def __del__(self):
+                try:
+                    env.point("del:evil", self.n)
+                    o, nm = self.owner, self.name
+                    try:
+                        setattr(o, nm, self.n)
+                    except Exception:      # noqa: BLE001
+                        pass
+                    try:
+                        getattr(o, nm)
+                    except Exception:      # noqa: BLE001
+                        pass
+                except BaseException:      # noqa: BLE001
+                    pass
+
         def value(n):
             n = n % 12
             if n < 4:
@@ -627,6 +654,24 @@ class Prop:
                     else:
                         safe(setattr, it, an, g)
                     safe(getattr, it, an)
+                    # hooks and accessors that only the trait refers to, replaced or cleared:
+                    # their finalizers use the attribute while the setter is at work
+                    if op["n"] % 2 == 0:
+                        safe(setattr, it, "post_setattr", EvilHook(o, nm, 50 + op["n"]))
+                        safe(setattr, o, nm, v)
+                        safe(setattr, it, "post_setattr", None if op["o"] % 2 else
+                             EvilHook(o, nm, 60))
+                        safe(setattr, it, "post_setattr", None)
+                    else:
+                        for rnd in range(2):
+                            safe(setattr, it, "property_fields",
+                                 (EvilHook(o, nm, 70 + rnd), EvilHook(o, nm, 80 + rnd),
+                                  EvilHook(o, nm, 90 + rnd)))
+                            safe(getattr, o, nm)
+                            safe(setattr, o, nm, v)
+                        safe(it.set_validate, EvilHook(o, nm, 95))
+                        safe(it.set_validate, EvilHook(o, nm, 96))
+                        safe(setattr, o, nm, v)
                     t3 = safe(copy.deepcopy, it)
                     if t3 is not None:
                         safe(delattr, t3, "__dict__")
